@@ -11,9 +11,25 @@ END_EVENTS = ['PRINT_DONE', 'PRINT_FAILED', 'PRINT_CANCELLING', 'PRINT_CANCELLED
 OTHER_EVENTS = ['PRINT_PAUSED', 'PRINT_RESUMED', 'CONNECTED', 'Z_CHANGE']
 
 
+def script_text(st, which):
+    """the script setting as the user typed it: raw text if the history carries one, else the canonical lines joined"""
+    t = st.get(which + '_text')
+    if t is not None:
+        return t
+    return '\n'.join(st[which]) if st[which] else None
+
+
+def coq_script(st, which):
+    t = script_text(st, which)
+    if t is None:
+        return '[]'
+    from lexstream import cstring
+    return '(split_script %s)' % cstring(t)        # the model splits the text itself (Model/Lexer.v)
+
+
 def coq_cfg(st):
     return '(mkCfg %s %s %s %s)' % (
-        C.cbool(st['g90e']), C.clist([C.cstr(s) for s in st['enter']]), C.clist([C.cstr(s) for s in st['exit']]),
+        C.cbool(st['g90e']), coq_script(st, 'enter'), coq_script(st, 'exit'),
         C.clist(['(%s, %s)' % (C.cstr(g), FS.MODE_COQ[m]) for g, m in sorted(st['ext'].items())]))
 
 
@@ -58,8 +74,8 @@ class Run(object):
     def settings_dict(st):
         return dict(clearRegionsAfterPrintFinishes=st['clear'], mayShrinkRegionsWhilePrinting=st['shrink'],
                     g90InfluencesExtruder=st['g90e'],
-                    enteringExcludedRegionGcode=('\n'.join(st['enter']) if st['enter'] else None),
-                    exitingExcludedRegionGcode=('\n'.join(st['exit']) if st['exit'] else None),
+                    enteringExcludedRegionGcode=script_text(st, 'enter'),
+                    exitingExcludedRegionGcode=script_text(st, 'exit'),
                     extendedExcludeGcodes=[dict(gcode=g, mode=m, description='') for g, m in sorted(st['ext'].items())])
 
     def xstate(self):
@@ -165,7 +181,7 @@ def coq_case(hist, rows):
 
 
 HEADER = ('From Coq Require Import QArith String List.\n'
-          'From ER Require Import Base.Num Model.Geometry Model.Axis Model.Filter Model.Plugin Model.Cases Model.Run Model.RunPlugin.\n'
+          'From ER Require Import Base.Num Model.Geometry Model.Axis Model.Filter Model.Plugin Model.Cases Model.Run Model.RunPlugin Model.Lexer.\n'
           'Import ListNotations.\nOpen Scope Q_scope.\nOpen Scope string_scope.\n')
 
 
@@ -211,9 +227,22 @@ def rnd_settings(rng):
     if rng.random() < 0.5:
         for code in rng.sample(['M204', 'M205', 'M117', 'M73', 'G4', 'M106'], rng.randint(1, 3)):
             ext[code] = rng.choice(genprog.EXT_MODES)
-    return dict(clear=rng.random() < 0.4, shrink=rng.random() < 0.3, g90e=rng.random() < 0.3,
-                enter=rng.choice([[], [], ['M117 in'], ['M106 S0', 'M117 skip']]),
-                exit=rng.choice([[], [], ['M117 out'], ['M106 S255', 'G4 P1']]), ext=ext)
+    st = dict(clear=rng.random() < 0.4, shrink=rng.random() < 0.3, g90e=rng.random() < 0.3,
+              enter=rng.choice([[], [], ['M117 in'], ['M106 S0', 'M117 skip'], ['@OCTOLAPSE TAKE-SNAPSHOT', 'M117 in'], ['SET_PIN PIN=fan VALUE=0']]),
+              exit=rng.choice([[], [], ['M117 out'], ['M106 S255', 'G4 P1'], ['M117 out', '@fan_restore'], ['RESTORE_GCODE_STATE NAME=skip', 'M400']]), ext=ext)
+    # the settings text as a user would type it: comments, blank lines, indentation, either line ending
+    for which in ('enter', 'exit'):
+        if st[which] and rng.random() < 0.6:
+            eol = rng.choice(['\n', '\r\n'])
+            lines = []
+            for l in st[which]:
+                if rng.random() < 0.3:
+                    lines.append(rng.choice(['; a comment', '', '   ', ';']))
+                lines.append(rng.choice(['', '', '  ']) + l + rng.choice(['', '', ' ', ' ; why', '   ;x']))
+            if rng.random() < 0.3:
+                lines.append('')
+            st[which + '_text'] = eol.join(lines)
+    return st
 
 
 def rnd_region_data(rng, rid, around=None):
